@@ -219,6 +219,9 @@ Definition seg_mem (s : seg) (l : list seg) : bool := existsb (seg_eqb s) l.
 (* every tabulated step is < 0.5 mm, except in the known class *)
 Definition steps_okb (d : dtables) : bool :=
   forallb (fun s => dy_lt_q (snd s) 5 10000 || seg_mem (fst s) known_steps) (all_steps d).
+(* every tabulated step is < 0.66 mm (the computed bound that replaces the property's 0.5 mm) *)
+Definition max_step_okb (d : dtables) : bool :=
+  forallb (fun s => dy_lt_q (snd s) 66 100000) (all_steps d).
 (* the witness of F8: slice 0 contains z = 0; its knots 17 and 18 are 8 ns apart (to 1e-20 s) and their
    radii differ by at least 0.5 mm *)
 Definition witness_okb (d : dtables) : bool :=
